@@ -108,6 +108,8 @@ pub mod interning;
 
 #[cfg(feature = "serialize")]
 mod serde_impls;
+#[cfg(cstree_verif)]
+pub mod verif;
 #[allow(missing_docs)]
 mod utility_types;
 
